@@ -109,6 +109,9 @@ var dirNames = [][]string{
 	{"pa1", "pa2"}, {"inner", "inner2"}, {"a", "ab"}, {"a", "a/b", "ab"}, {"model", "models"}, {"x", "y"},
 	{"api", "api/v1", "api/v10"}, {"srv", "srv/internal/db", "srv2"}, {"p", "pq", "pqr"}, {"data", "data_test"},
 	{"models", "Models"}, {"api", "API", "Api"}, {"api/v1", "apiclient", "api"},
+	// a directory, a package nested in it, and a sibling whose name continues
+	// with a byte that sorts before the path separator
+	{"api", "api/internal/conv", "api-v2"}, {"pkg", "pkg/sub", "pkg.old"}, {"a", "a/b", "a-b", "a.b"}, {"srv", "srv/db", "srv-db", "srv2"},
 }
 
 var faults = []string{"missing", "not_go", "type_error_root", "type_error_import", "type_error_import", "type_error_import_body", "type_error_import_body", "unused_import_root", "unused_import_dep", "dir_for_file", "dangling_symlink", "go_unavailable", "empty_go_file",
@@ -125,7 +128,7 @@ func (c17) Generate(env *kernel.Env, r *kernel.Rand, index int) any {
 		parts = append(parts, kernel.Pick(r, []string{"org", "team", "lib", "x"}))
 	}
 	p.Module = strings.Join(parts, "/")
-	p.Outer = kernel.Pick(r, []string{"", "w", "work dir", "go/src", "a-b/c.d"})
+	p.Outer = kernel.Pick(r, []string{"", "w", "work dir", "go/src", "a-b/c.d", "dépôt", "données/src", "日本"})
 	// directories: one or two colliding families, sometimes the module root itself
 	var dirs []string
 	seen := map[string]bool{}
@@ -162,7 +165,7 @@ func (c17) Generate(env *kernel.Env, r *kernel.Rand, index int) any {
 	for i, d := range dirs {
 		name := "root"
 		if d != "" {
-			name = strings.NewReplacer("_test", "t", "-", "").Replace(filepath.Base(d))
+			name = strings.NewReplacer("_test", "t", "-", "", ".", "").Replace(filepath.Base(d))
 		}
 		ps := pkgSpec{Dir: d, Name: name}
 		nf := r.Range(1, 3)
@@ -233,7 +236,7 @@ func (c17) Generate(env *kernel.Env, r *kernel.Rand, index int) any {
 		p.Repair = r.Chance(1, 2)
 		p.Again = r.Chance(1, 2)
 	} else if r.Chance(1, 3) {
-		p.Second = kernel.Pick(r, []string{"type_error_root", "syntax_error_root", "missing", "type_error_import"})
+		p.Second = kernel.Pick(r, []string{"type_error_root", "syntax_error_root", "missing", "type_error_import", "same_size_rewrite"})
 		p.FaultA = r.Intn(64)
 	}
 	if r.Chance(1, 6) {
@@ -794,6 +797,19 @@ func (c17) Execute(env *kernel.Env, raw json.RawMessage, ch *kernel.Choices) *ke
 			must(os.WriteFile(filepath.Join(filepath.Dir(target), "zz_syntax.go"), []byte(fmt.Sprintf("package %s\n\nfunc broken( {\n", p.Pkgs[tpkg].Name)), 0o644))
 		case "missing":
 			must(os.Remove(target))
+		case "same_size_rewrite":
+			// the requested file itself is rewritten in place: same length, same
+			// modification time (cp -p, rsync -t, a rewrite within one clock tick),
+			// now with a type error
+			st, serr := os.Stat(target)
+			old, rerr := os.ReadFile(target)
+			if serr != nil || rerr != nil || !strings.Contains(string(old), "struct{ A int }") {
+				applied = "type_error_root"
+				must(os.WriteFile(filepath.Join(filepath.Dir(target), "zz_broken.go"), []byte(fmt.Sprintf("package %s\n\nvar broken int = \"not an int\"\n", p.Pkgs[tpkg].Name)), 0o644))
+				break
+			}
+			must(os.WriteFile(target, []byte(strings.Replace(string(old), "struct{ A int }", "struct{ A imt }", 1)), 0o644))
+			must(os.Chtimes(target, st.ModTime(), st.ModTime()))
 		case "type_error_import":
 			if len(p.Pkgs[tpkg].Imports) == 0 {
 				applied = "type_error_root"
